@@ -89,6 +89,9 @@ def runPanoc (kv : KV) (evs : List Ev) : String :=
     lsTol := kvFlt kv "lstol" eps0, updateDirInCandidate := kvNat kv "updcand" != 0,
     recomputeLastProx := kvNat kv "recomp" != 0, eagerGradientEval := kvNat kv "eager" != 0,
     alwaysOverwrite := kvNat kv "overwrite" 1 != 0, tolerance := kvFlt kv "tol" 1e-8 }
+  -- `lsFuel` keeps its default 4096 (≥ the bound `(n+1)(K+1)` of `Proofs/PanocFuel` for every
+  -- parameter set with `(n+1)(K+1) ≤ 4096`, e.g. the defaults: 850); `FUEL-EXHAUSTED` is printed and
+  -- counts as a mismatch should it run out.  The last argument `1.0/0.0` is the `+∞` of `Stats::ε`.
   let stopTick := match evs.find? (·.name == "stoptick") with
     | some e => (e.toks.head?.bind String.toNat?).getD 0
     | none => 0
